@@ -1,8 +1,9 @@
-"""T11: cirbo/core/utils.py, cirbo/core/circuit/utils.py (input_iterator_with_fixed_sum), cirbo/core/truth_table.py
-    -> Generated/TruthTableCore.v
+"""T11: cirbo/core/utils.py, cirbo/core/circuit/utils.py (input_iterator_with_fixed_sum), cirbo/core/truth_table.py,
+    cirbo/core/python_function.py  ->  Generated/TruthTableCore.v
 
-A statement-level imperative-to-functional translation of the helpers of core/utils.py and of the classes
-TruthTable and TruthTableModel.  Every function / method of COVERED becomes `gen_<name>` (methods:
+A statement-level imperative-to-functional translation of the helpers of core/utils.py, of the classes
+TruthTable and TruthTableModel, and of the constructor and protocol methods of PyFunction and PyFunctionModel
+(not their static factories and PyFunctionModel.define, which build and return closures).  Every function / method of COVERED becomes `gen_<name>` (methods:
 `gen_<Class>_<name>`); Proofs/TruthTableGen*.v prove each of them equal to the hand model Model/FuncProto.v
 (the object of the C12 theorems), so an edit of a covered body changes a generated definition and breaks an
 equality lemma.  Anything outside the grammar raises TranslatorError (the check then fails closed).  COVERED is
@@ -11,8 +12,8 @@ source; the translator knows no function of the library by name (only COVERED, w
 
 Values.  int -> Z; bool -> bool; str -> string; list / tuple[T, ...] / Sequence / Iterable -> list; tuple[A, B] ->
 pair; Optional[T] -> option; Mapping[K, V] -> list (K * V) (only `.items()`); TriValue (= Union[bool, _DontCare])
--> FuncProto.tri; the float returned by math.log2 -> the record log2val of the prelude; tp.Any -> a type
-parameter.  A Union loses its `str` and `Literal[...]` members (the hand model has no string / 0 / 1 cells), so
+-> FuncProto.tri; Callable[[A], R] -> a function A -> res R (called as f(x) / self._f(x)); the float returned by
+math.log2 -> the record log2val of the prelude; tp.Any -> a type parameter.  A Union loses its `str` and `Literal[...]` members (the hand model has no string / 0 / 1 cells), so
 `isinstance(x, str)` is False on such a value and the branch it guards is not translated.  An object of a
 translated class is the record of the attributes that its __init__ assigns (`self._a = e` in order); methods
 read the attributes and never write them; `@property` methods are ordinary functions of self.  A function whose
@@ -30,17 +31,21 @@ Grammar.
            | <name>[i] = <expr>  |  <name>[i][j] = <expr>  |  <name>.insert(i, e)     in-place updates of a local list
            | yield <expr>                             (generator: the function returns the list of yielded values)
            | def <closure>(<annotated params>): [nonlocal ...] <stmts>   captures never re-assigned variables
-           | self.<attr>[: T] = <expr>                in __init__ only
+           | self.<attr>[: T] = <expr>                in __init__ only (not in loops; every path must assign the same
+                                                      attributes in the same order); there `self.<property>` is read
+                                                      only for a trivial getter of an attribute already assigned
   <iterable> ::= <list expr> | range(a[, b]) | enumerate(l) | zip(a, b) | itertools.product((False, True), repeat=n)
            | itertools.combinations(l, k) | <mapping>.items() | <str expr> | <iterator variable>
            | <call of a generator>
   <expr> ::= names, True / False / None, int and str literals, DontCare, self.<attr>, self.<property>,
            a + b, a - b, a * b (ints; list * int; str * int), a & b, a << b, a >> b (ValueError on a negative count),
            a ^ b (bools), not / and / or (short circuit kept when the right operand can raise), == != < <= > >=
-           (typed: bools, ints, strings, tri, lists; bool or tri against an int literal), `x is [not] None`,
+           (typed: bools, ints, strings, tri, lists; bool or tri against an int literal; < > also on bools),
+           `x is [not] None`,
            a if c else b, l[i] (Python indexing incl. negative; IndexError), l[i:], s[i:], len, list(x), [a, ...],
            (a, b), [e for t in it [if c]], all / any / ''.join / list over a generator expression or a list,
-           list(map(f, l)), zip(*l), iter(l) / next(it) (StopIteration) on a local iterator variable,
+           list(map(f, l)), zip(*l), iter(l) / next(it) (StopIteration) on a local iterator variable (iter(...),
+           itertools.product(...) or itertools.combinations(...) bound to a name),
            int(b), int(s), int(s, 2), str(i), bool(i), bin(i), math.log2(i) with .is_integer() / int(.),
            isinstance(x, str), copy.deepcopy(x), tp.cast(T, x) = x, calls of translated functions, methods, closures
            and constructors (positional / keyword arguments, constant defaults).
@@ -63,6 +68,8 @@ OUT = 'Generated/TruthTableCore.v'
 UTILS = 'cirbo.core.utils'
 CUTILS = 'cirbo.core.circuit.utils'
 TT = 'cirbo.core.truth_table'
+PF = 'cirbo.core.python_function'
+CLASS_MODULES = (TT, PF)
 
 # (module, qualified name): ALL of them must translate, in this emission priority (callees are emitted first)
 COVERED = [
@@ -81,6 +88,17 @@ COVERED = [
     (TT, 'TruthTableModel.__init__'), (TT, 'TruthTableModel.input_size'), (TT, 'TruthTableModel.output_size'),
     (TT, 'TruthTableModel.check'), (TT, 'TruthTableModel.check_at'),
     (TT, 'TruthTableModel.get_model_truth_table'), (TT, 'TruthTableModel.define'),
+    (PF, 'PyFunction.__init__'), (PF, 'PyFunction.input_size'), (PF, 'PyFunction.output_size'),
+    (PF, 'PyFunction.evaluate'), (PF, 'PyFunction.evaluate_at'),
+    (PF, 'PyFunction.is_constant'), (PF, 'PyFunction.is_constant_at'),
+    (PF, 'PyFunction.is_monotone'), (PF, 'PyFunction.is_monotone_at'),
+    (PF, 'PyFunction.is_symmetric'), (PF, 'PyFunction.is_symmetric_at'),
+    (PF, 'PyFunction.is_dependent_on_input_at'),
+    (PF, 'PyFunction.is_output_equal_to_input'), (PF, 'PyFunction.is_output_equal_to_input_negation'),
+    (PF, 'PyFunction.get_significant_inputs_of'), (PF, 'PyFunction.find_negations_to_make_symmetric'),
+    (PF, 'PyFunction.get_truth_table'),
+    (PF, 'PyFunctionModel.__init__'), (PF, 'PyFunctionModel.input_size'), (PF, 'PyFunctionModel.output_size'),
+    (PF, 'PyFunctionModel.check'), (PF, 'PyFunctionModel.check_at'), (PF, 'PyFunctionModel.get_model_truth_table'),
 ]
 
 ERR_ALIAS = {'BadBooleanValue': 'BadDefinitionError'}
@@ -119,6 +137,8 @@ def coq_ty(t):
             return f'list ({paren_ty(t[1])} * {paren_ty(t[2])})'
         if t[0] == 'obj':
             return 'gen_' + t[1]
+        if t[0] == 'fun':
+            return ' -> '.join([paren_ty(a) for a in t[1]] + [f'res {paren_ty(t[2])}'])
         if t[0] == 'var':
             return t[1]
     raise TranslatorError(f'no Coq type for {t!r}')
@@ -480,7 +500,7 @@ class Unit:
             if r[0] == 'class':
                 if self.is_dontcare_class(r[1], r[2]):
                     return DC
-                if r[1].dotted == TT:
+                if r[1].dotted in CLASS_MODULES:
                     return ('obj', r[2].name)
                 fail(node, f'class {node.id} is not a translated type')
             if r[0] == 'assign':
@@ -510,6 +530,12 @@ class Unit:
                 if members <= {BOOL, DC, TRI} and members & {DC, TRI}:
                     return TRI
                 fail(node, 'Union outside grammar')
+            if head == 'Callable':
+                if not (isinstance(sl, ast.Tuple) and len(sl.elts) == 2 and isinstance(sl.elts[0], ast.List)
+                        and sl.elts[0].elts):
+                    fail(node, 'Callable[[args], result] expected')
+                return ('fun', tuple(self.ann(e, mod, tyvars) for e in sl.elts[0].elts),
+                        self.ann(sl.elts[1], mod, tyvars))
             if head == 'Mapping':
                 if not (isinstance(sl, ast.Tuple) and len(sl.elts) == 2):
                     fail(node, 'Mapping')
@@ -772,8 +798,11 @@ class FnTr:
     def end_of_function(self, env):
         """falling off the end of the body"""
         if self.cls is not None and self.node.name == '__init__':
-            want = [a for a, _ in self.init_fields]
-            return 'Ok ' + paren(' '.join(['mk_gen_' + self.cls.name] + [env['self.' + a].code for a in want]))
+            fields = [(n[5:], v.ty) for n, v in env.items() if n.startswith('self.')]
+            if self.init_fields and self.init_fields != fields:
+                fail(self.node, '__init__ assigns different attributes (or in a different order) on different paths')
+            self.init_fields = fields
+            return 'Ok ' + paren(' '.join(['mk_gen_' + self.cls.name] + [env['self.' + a].code for a, _ in fields]))
         if self.is_gen:
             return 'Ok yielded'
         if self.ret_ty is None:
@@ -942,14 +971,13 @@ class Stmts:
             if self.depth_of_loops:
                 fail(s, 'attribute store inside a loop')
             attr = target.attr
-            if any(a == attr for a, _ in self.init_fields):
+            if 'self.' + attr in env:
                 fail(s, f'self.{attr} is assigned twice')
             v = self.expr(s.value, env, pre)
             if v.ty == ('none',) or v.ty is None:
                 fail(s, 'attribute of unknown type')
             code = 'f' + attr
             pre.append(f'do {code} <- {v.code};' if v.m else f'let {code} := {v.code} in')
-            self.init_fields.append((attr, v.ty))
             env2 = dict(env)
             env2['self.' + attr] = Var(code, v.ty, 'field')
             return seq(pre, cont(env2))
@@ -1380,6 +1408,16 @@ class Exprs:
             key = 'self.' + node.attr
             if key in env:
                 return Val(env[key].code, env[key].ty)
+            if self.cls.is_property(node.attr):
+                # a property of the half-built object: only the trivial getter `return self.<attr>` of an
+                # attribute that is already assigned
+                m = self.cls.method(node.attr, node)
+                body = strip_docstring(m.body)
+                if len(m.args.args) == 1 and len(body) == 1 and isinstance(body[0], ast.Return) \
+                        and isinstance(body[0].value, ast.Attribute) and isinstance(body[0].value.value, ast.Name) \
+                        and body[0].value.value.id == m.args.args[0].arg and 'self.' + body[0].value.attr in env:
+                    v = env['self.' + body[0].value.attr]
+                    return Val(v.code, v.ty)
             fail(node, f'self.{node.attr} is read in __init__ before it is assigned (properties of a half-built '
                        f'object are not translated)')
         fail(node, 'attribute access outside grammar')
@@ -1458,6 +1496,8 @@ class Exprs:
             sym = {ast.Lt: '<?', ast.LtE: '<=?', ast.Gt: '>?', ast.GtE: '>=?'}.get(type(op))
             if sym:
                 return Val(f'({A} {sym} {B})%Z', BOOL)
+        if a.ty == BOOL and b.ty == BOOL and isinstance(op, (ast.Lt, ast.Gt)):      # False < True
+            return Val(f'negb {A} && {B}' if isinstance(op, ast.Lt) else f'{A} && negb {B}', BOOL)
         fail(node, f'comparison {type(op).__name__} on {a.ty} and {b.ty}')
 
     def ifexp(self, node, env, pre):
@@ -1586,7 +1626,7 @@ class Exprs:
                     n = self.pexpr(node.keywords[0].value, env, pre)
                     if n.ty != INT:
                         fail(node, 'repeat must be an int')
-                    return Val(f'py_product_bools {paren(n.code)}', TL(TL(BOOL)), True, 2)
+                    return Val(f'py_product_bools {paren(n.code)}', ('iter', TL(BOOL)), True, 2)
                 if f.attr == 'combinations':
                     if len(node.args) != 2 or node.keywords:
                         fail(node, 'itertools.combinations(l, k) expected')
@@ -1594,7 +1634,7 @@ class Exprs:
                     k = self.pexpr(node.args[1], env, pre)
                     if k.ty != INT:
                         fail(node, 'combinations: k must be an int')
-                    return Val(f'py_combinations {paren(a.code)} {paren(k.code)}', TL(a.ty), True, 2)
+                    return Val(f'py_combinations {paren(a.code)} {paren(k.code)}', ('iter', a.ty), True, 2)
                 fail(node, f'itertools.{f.attr} is outside the grammar')
             if isinstance(f, ast.Attribute) and f.attr == 'items' and not node.args and not node.keywords:
                 a = self.pexpr(f.value, env, pre)
@@ -1611,6 +1651,8 @@ class Exprs:
         if isinstance(f, ast.Name):
             if f.id in env:
                 var = env[f.id]
+                if isinstance(var.ty, tuple) and var.ty[0] == 'fun':
+                    return self.call_callable(node, var.code, var.ty, env, pre)
                 if var.kind != 'closure':
                     fail(node, f'call of the variable {f.id}')
                 fn = var.ty[1]
@@ -1625,7 +1667,7 @@ class Exprs:
                 r = self.u.resolve(self.mod, f.id, node)
                 if r[0] == 'func':
                     return self.call_translated(node, r[1], r[2], None, env, pre, [])
-                if r[0] == 'class' and r[1].dotted == TT:
+                if r[0] == 'class' and r[1].dotted in CLASS_MODULES:
                     cls = self.u.classinfo(r[1], r[2])
                     return self.call_translated(node, r[1], cls.method('__init__', node), cls, env, pre, [])
                 fail(node, f'call of {f.id}, which is not a translated function or class')
@@ -1635,6 +1677,8 @@ class Exprs:
         if isinstance(f, ast.Attribute):
             if isinstance(f.value, ast.Name) and f.value.id in env and env[f.value.id].kind == 'self':
                 cls = self.cls
+                if cls.fields and isinstance(dict(cls.fields).get(f.attr), tuple) and dict(cls.fields)[f.attr][0] == 'fun':
+                    return self.call_callable(node, f'({cls.name}{f.attr} self)', dict(cls.fields)[f.attr], env, pre)
                 if cls.is_property(f.attr) or (cls.fields and f.attr in dict(cls.fields)):
                     fail(node, f'call of the attribute / property self.{f.attr}')
                 return self.call_translated(node, cls.mod, cls.method(f.attr, node), cls, env, pre, [Val('self', None)])
@@ -1669,6 +1713,16 @@ class Exprs:
                     fail(node, '.is_integer() of something that is not the result of math.log2')
                 return Val(f'l2_exact {paren(a.code)}', BOOL)
         fail(node, 'call outside grammar')
+
+    def call_callable(self, node, code, ty, env, pre):
+        """a call of a value of Callable type (a Gallina function that may raise)"""
+        if node.keywords or len(node.args) != len(ty[1]) or any(isinstance(a, ast.Starred) for a in node.args):
+            fail(node, 'call of a callable: one positional argument per parameter expected')
+        args = []
+        for a, pt in zip(node.args, ty[1]):
+            v = self.pexpr(a, env, pre)
+            args.append(paren(self.coerce(v, pt, node)))
+        return Val(' '.join([code] + args), ty[2], True)
 
     def gen_or_list(self, node, env, pre):
         """a generator expression (as the list of its values) or a list-valued expression"""
